@@ -3,11 +3,8 @@ from props import connworld
 
 
 def run(rep, tier, seed):
-    rep.need_witness('c19_preresolved', 'c19_ip_literal', 'c19_lookup', 'c19_connected', 'c19_fallback_used', 'c19_all_failed', 'c19_unresolved', 'c19_tls_ok', 'c19_tls_err', 'c19_tls_invalid_name')
+    rep.need_witness('c19_preresolved', 'c19_ip_literal', 'c19_lookup', 'c19_custom_resolver', 'c19_connected', 'c19_fallback_used', 'c19_all_failed', 'c19_unresolved', 'c19_tls_ok', 'c19_tls_err', 'c19_tls_invalid_name')
     connworld.run_c19(rep, tier, seed)
 
 
-def replay(path):
-    import json
-    d = json.load(open(path)); print(json.dumps(d, indent=1)); print('(engine-S path; re-run ./check C19 to re-decide it on the current tree)')
-    return 1
+def replay(path): return connworld.replay_file(path)
